@@ -5,6 +5,7 @@ import (
 	"encoding/json"
 	"errors"
 	"fmt"
+	"go.uber.org/zap/zapio"
 	"go.uber.org/zap/zaptest/observer"
 	"io"
 	"log/slog"
@@ -216,6 +217,30 @@ func (w *c8world) history(kind, a int, lg *zap.Logger) {
 			w.failing.Error("with a reflected field to a failing device", zap.Reflect("r", c8refl{a, "f", nil}))
 		}
 		w.failWant++
+	case 22:
+		// a logger chained into another one through a zapio.Writer, with an
+		// encoder that ends its lines with nothing: the writer holds the bytes of
+		// one entry while the buffer they came in is back in the pool and other
+		// entries are encoded; what arrives downstream is what was logged
+		oc, logs := observer.New(zapcore.DebugLevel)
+		wr := &zapio.Writer{Log: zap.New(oc), Level: zapcore.InfoLevel}
+		cfg := encCfg()
+		cfg.SkipLineEnding = true
+		up := zap.New(zapcore.NewCore(zapcore.NewJSONEncoder(cfg), zapcore.AddSync(wr), zapcore.DebugLevel))
+		up.Info("alpha", zap.Int("a", a))
+		lg.Info("between the two halves of a chained line", zap.String("pad", strings.Repeat("y", 40+a)))
+		up.Info("beta")
+		wr.Close()
+		want := fmt.Sprintf(`{"level":"info","msg":"alpha","a":%d}{"level":"info","msg":"beta"}`, a)
+		es := logs.All()
+		if len(es) != 1 || es[0].Message != want {
+			var got []string
+			for _, e := range es {
+				got = append(got, e.Message)
+			}
+			w.c.Fail("C08: bytes handed to a sink changed after the call that produced them returned", "logger -> zapio.Writer -> logger with lines without an ending: downstream recorded %q, expected [%q]", got, want)
+		}
+		w.c.R.Probe("logger chained into another through zapio.Writer, lines without an ending")
 	case 21:
 		// a lazily derived sugared logger whose first use comes after other
 		// sugared calls with context (its fields are evaluated then, not before):
@@ -310,7 +335,7 @@ type c8hook struct{ w *c8world }
 
 func (h c8hook) OnWrite(*zapcore.CheckedEntry, []zapcore.Field) { h.w.hookGot++ }
 
-const c8kinds = 22
+const c8kinds = 23
 
 // c8panicArr: a user marshaler with a bug. zap does not contain panics of
 // object and array marshalers; the application (an HTTP server, say) recovers
